@@ -401,6 +401,32 @@ theorem tallied_together_agree {η : Type} [DecidableEq η] (H : Str → η) (le
     obtain ⟨k₂, v₂⟩ := valid _ pw
     exact anyClaim_path_injective k₁ k₂ _ _ v₁ v₂ (collisionFree _ pv _ pw (hk.trans hk'.symm))
 
+/-- every stored attestation sits under the key of the claim it RECORDS — in every reachable state, with no hypothesis on the
+claims or the hash.  This is what genesis export / import relies on: `InitGenesis` files each exported attestation under
+`claim.GetEventNonce() ‖ claim.ClaimHash()` of its recorded claim (REGENERATED `interfaceUses`: `InitGenesis` calls exactly
+`GetEventNonce`, `ClaimHash`, `GetBlockHeight`) -/
+theorem attestation_filed_under_recorded_claim {η : Type} [DecidableEq η] (H : Str → η) (le : η → η → Bool) (ops : List Op) :
+    ∀ a ∈ (run (fun c => H c.path) le {} ops).atts, a.claim.nonce = a.nonce ∧ H a.claim.path = a.hash := by
+  intro a ha
+  have inv := inv_run attestTrySites attestLookup attest_sites_well_keyed attest_lookup_own_key (fun c => H c.path) le
+    (fun _ => True) (fun _ => False) (stale_false _ _) (Or.inr fun _ h => h) ops {} (inv_init _ _ _) (fun _ _ => trivial)
+  obtain ⟨⟨hn, hh, _⟩, _⟩ := (inv.1 a ha).resolve_right id
+  exact ⟨hn, hh⟩
+
+/-- … so re-filing every attestation under the key of its recorded claim (an export / import round trip of the attestation
+table) changes nothing, after any history -/
+theorem genesis_refile_is_identity {η : Type} [DecidableEq η] (H : Str → η) (le : η → η → Bool) (ops : List Op) :
+    (run (fun c => H c.path) le {} ops).atts.map (fun a => { a with nonce := a.claim.nonce, hash := H a.claim.path })
+      = (run (fun c => H c.path) le {} ops).atts := by
+  have h := attestation_filed_under_recorded_claim H le ops
+  generalize (run (fun c => H c.path) le {} ops).atts = l at h
+  induction l with
+  | nil => rfl
+  | cons a r ih =>
+    obtain ⟨hn, hh⟩ := h a List.mem_cons_self
+    simp only [List.map_cons, hn, hh]
+    rw [ih (fun b hb => h b (List.mem_cons_of_mem _ hb))]
+
 /-- deferred execution: what `ExecuteClaim` runs (send-to-fx, bridge-call and bridge-call-result claims are stored by
 `SavePendingExecuteClaim` and run later from the stored copy) is a claim object an observed attestation handed to the
 handler, so it has the type and every effect-relevant field of every vote tallied for it — the effect applied on fxcore
@@ -1132,6 +1158,10 @@ example : (run (fun c => c.path) (fun _ _ => true) {} (legacyOps ++ [.vote 2 (.b
 /-- the recorded height after the three votes of `legacyOps` + oracle 2 is the voted one -/
 example : (run (fun c => c.path) (fun _ _ => true) {} (legacyOps ++ [.vote 2 (.bc wCall) false])).lastHeight = 1
     ∧ (run (fun c => c.path) (fun _ _ => true) {} (legacyOps ++ [.vote 2 (.bc { wCall with BlockHeight := 7 }) false])).lastHeight = 0 := by
+  decide +kernel
+
+/-- non-vacuity: after `legacyOps` there are two attestations (the two conflicting bridge calls), each under its own key -/
+example : ((run (fun c => c.path) (fun _ _ => true) {} legacyOps).atts.map fun a => a.claim.path == a.hash) = [true, true] := by
   decide +kernel
 
 end FxVerif.Props.C03
